@@ -27,10 +27,14 @@ EXTENDS Integers, Sequences, FiniteSets, TLC
 
 CONSTANTS
     Snap,        \* snapshot ids of the scenario
-    Def,         \* [Snap -> [chain, kind, newRound, after]]
+    Def,         \* [Snap -> [chain, kind, newRound, round, after, closes, ext]]
+                 \*   closes = snapshots of the previous round the opener's self reference commits to
+                 \*   ext    = <<"-", 0>> (external reference known from the start) or <<chain, round>>: the
+                 \*            final round of that chain, stored only once that chain opened round+1
     Chain,       \* chain ids
     Head0,       \* [Chain -> Int] initial head round numbers (-1 = chain has no round yet)
     MaxCrash,    \* bound on the number of stops
+    MaxTries,    \* bound on deliveries of one snapshot that end without applying it
     Known        \* set of known-finding ids tolerated by the invariants
 
 (* kinds: "deposit", "transfer" (ordinary) ; "pledge" (consensus class, needs
@@ -43,13 +47,21 @@ VARIABLES
     head,                         \* durable head round number per chain
     topo,                         \* durable topology: sequence of snapshots
     marker,                       \* durable last consensus marker: a snapshot or "G" (genesis)
+    refsOK,                       \* durable, per chain: the head round's stored references are the opener's
+                                  \*   (FALSE after a round was opened with a still unknown external reference)
     pc,                           \* volatile: phase reached by the running handler of each snapshot
+    abort,                        \* volatile: handlers that must return without further calls
+    tries,                        \* deliveries of a snapshot that returned without applying it
     complete,                     \* volatile->history: handlers that returned
     up, broken, crashes, fresh    \* process state; fresh = just restarted, nothing ran since
 
-vars == <<ghost, nodeop, lock, body, head, topo, marker, pc, complete, up, broken, crashes, fresh>>
+vars == <<ghost, nodeop, lock, body, head, refsOK, topo, marker, pc, abort, tries, complete, up, broken, crashes, fresh>>
 
 InTopo(s) == \E i \in 1..Len(topo) : topo[i] = s
+TopoSet == { topo[i] : i \in 1..Len(topo) }
+
+ExtKnown(s) == Def[s].ext[1] = "-" \/ head[Def[s].ext[1]] > Def[s].ext[2]
+RoundEmpty(c) == ~\E x \in TopoSet : Def[x].chain = c /\ Def[x].round = head[c]
 
 (* Phases 1..9 ; a phase whose guard is false is skipped (no call is made).   *)
 PhaseName(s, p) ==
@@ -71,7 +83,7 @@ PhaseName(s, p) ==
                          [] Def[s].kind = "mint"    -> "LockMintInput"
                          [] OTHER                   -> "LockUTXOs"
            [] p = 5 -> "WriteTransaction"
-           [] p = 6 -> "-"
+           [] p = 6 -> "UpdateEmptyHeadRound"
            [] p = 7 -> "WriteSnapshot"
            [] p = 8 -> "-"
            [] p = 9 -> "WriteConsensusSnapshot"
@@ -92,13 +104,14 @@ Guard(s, p, wroteNow) ==
            [] p = 8 -> head[c] = 0 /\ InTopo(s)
            [] p = 9 -> wroteNow
            [] p = 10 -> TRUE
-    ELSE CASE p = 1 -> Def[s].newRound /\ head[c] = Def[s].round - 1
-           [] p = 2 -> s \notin body
-           [] p = 3 -> Def[s].kind = "pledge" /\ ~InTopo(s)
-           [] p = 4 -> s \notin body
-           [] p = 5 -> s \notin body
-           [] p = 6 -> FALSE
-           [] p = 7 -> ~InTopo(s) /\ head[c] = Def[s].round
+    ELSE IF s \in abort THEN p = 10
+    ELSE CASE p = 1 -> Def[s].newRound /\ head[c] = Def[s].round - 1 /\ Def[s].closes \subseteq TopoSet
+           [] p = 2 -> s \notin body /\ head[c] = Def[s].round
+           [] p = 3 -> Def[s].kind = "pledge" /\ ~InTopo(s) /\ head[c] = Def[s].round
+           [] p = 4 -> s \notin body /\ head[c] = Def[s].round
+           [] p = 5 -> s \notin body /\ head[c] = Def[s].round
+           [] p = 6 -> head[c] = Def[s].round /\ ~refsOK[c] /\ ExtKnown(s) /\ RoundEmpty(c) /\ ~InTopo(s)
+           [] p = 7 -> ~InTopo(s) /\ head[c] = Def[s].round /\ refsOK[c]
            [] p = 8 -> FALSE
            [] p = 9 -> Consensus(s) /\ wroteNow
            [] p = 10 -> TRUE
@@ -124,7 +137,9 @@ Init ==
     /\ head = Head0
     /\ topo = <<>>
     /\ marker = "G"
+    /\ refsOK = [c \in Chain |-> TRUE]
     /\ pc = [s \in Snap |-> 0]
+    /\ abort = {} /\ tries = [s \in Snap |-> 0]
     /\ complete = {}
     /\ up = TRUE /\ broken = FALSE /\ crashes = 0 /\ fresh = FALSE
     /\ startedInTopo = {}
@@ -136,6 +151,7 @@ Running(s) == pc[s] > 0 /\ pc[s] < 10
 CanRun(s) ==
     /\ up /\ ~broken
     /\ s \notin complete
+    /\ (pc[s] = 0 => tries[s] < MaxTries)
     /\ Def[s].after \subseteq complete
     /\ \A s2 \in Snap \ {s} : Def[s2].chain = Def[s].chain => ~Running(s2)
 
@@ -146,16 +162,26 @@ Step(s) ==
            n == PhaseName(s, p)
            c == Def[s].chain
        IN
-        /\ pc' = [pc EXCEPT ![s] = p]
+        /\ pc' = IF n = "Return" /\ ~InTopo(s) THEN [pc EXCEPT ![s] = 0] ELSE [pc EXCEPT ![s] = p]
         /\ UNCHANGED startedInTopo
         /\ ghost'  = IF n = "LockGhostKeys" THEN ghost \cup {s} ELSE ghost
         /\ nodeop' = IF n = "AddNodeOperation" THEN nodeop \cup {s} ELSE nodeop
         /\ lock'   = IF n \in {"LockUTXOs", "LockDepositInput", "LockMintInput"} THEN lock \cup {s} ELSE lock
         /\ body'   = IF n = "WriteTransaction" THEN body \cup {s} ELSE body
         /\ head'   = IF n = "StartNewRound" THEN [head EXCEPT ![c] = @ + 1] ELSE head
+        /\ refsOK' = CASE n = "StartNewRound" /\ Def[s].kind # "accept" -> [refsOK EXCEPT ![c] = ExtKnown(s)]
+                        [] n = "UpdateEmptyHeadRound" -> [refsOK EXCEPT ![c] = TRUE]
+                        [] OTHER -> refsOK
+        \* a round opened with an unknown external reference, and an empty head whose references were
+        \* just replaced, end the handler: the snapshot has to be delivered again
+        /\ abort'  = CASE n = "Return" -> abort \ {s}
+                        [] n = "StartNewRound" /\ Def[s].kind # "accept" /\ ~ExtKnown(s) -> abort \cup {s}
+                        [] n = "UpdateEmptyHeadRound" -> abort \cup {s}
+                        [] OTHER -> abort
+        /\ tries'  = IF n = "Return" /\ ~InTopo(s) THEN [tries EXCEPT ![s] = @ + 1] ELSE tries
         /\ topo'   = IF n = "WriteSnapshot" THEN Append(topo, s) ELSE topo
         /\ marker' = IF n = "WriteConsensusSnapshot" THEN s ELSE marker
-        /\ complete' = IF n = "Return" THEN complete \cup {s} ELSE complete
+        /\ complete' = IF n = "Return" /\ InTopo(s) THEN complete \cup {s} ELSE complete
         /\ fresh' = FALSE
         /\ UNCHANGED <<up, broken, crashes>>
 
@@ -163,9 +189,10 @@ Crash ==
     /\ up /\ crashes < MaxCrash
     /\ up' = FALSE /\ crashes' = crashes + 1
     /\ pc' = [s \in Snap |-> IF s \in complete THEN pc[s] ELSE 0]
+    /\ abort' = {}
     /\ fresh' = FALSE
     /\ startedInTopo' = { s \in Snap : InTopo(s) }   \* every later run starts from this topology
-    /\ UNCHANGED <<ghost, nodeop, lock, body, head, topo, marker, complete, broken>>
+    /\ UNCHANGED <<ghost, nodeop, lock, body, head, refsOK, topo, marker, tries, complete, broken>>
 
 (* SetupNode: LastSnapshot() -> reloadConsensusState if it holds one consensus
    transaction; then every chain is loaded: head round 0 aborts (loadState
@@ -175,7 +202,7 @@ Restart ==
     /\ up' = TRUE /\ fresh' = TRUE
     /\ marker' = IF Len(topo) > 0 /\ Consensus(topo[Len(topo)]) THEN topo[Len(topo)] ELSE marker
     /\ broken' = \E c \in Chain : head[c] = 0
-    /\ UNCHANGED <<ghost, nodeop, lock, body, head, topo, pc, complete, crashes, startedInTopo>>
+    /\ UNCHANGED <<ghost, nodeop, lock, body, head, refsOK, topo, pc, abort, tries, complete, crashes, startedInTopo>>
 
 Next == (\E s \in Snap : Step(s)) \/ Crash \/ Restart
 
